@@ -145,6 +145,8 @@ func runC03(p *core.Program, r *core.Report) {
 	decodeInPlace(p, x, r, "C03.in-place", []string{"lang/pack"})
 	r.Rule("C03.tail-threshold", "an optional tail is not taken for missing because little is left: a byte threshold on what is left of the decoder's own blob is no larger than the shortest encoding of the reads it guards", 0)
 	tailGuardRule(p, r, "C03.tail-threshold", "lang/pack")
+	r.Rule("C03.verbatim-input", "a decoder entry point builds its input stream over the bytes it was handed (or an explicit re-slice), never over what a function made of them", 2)
+	c03VerbatimInput(p, r, "C03.verbatim-input", []string{"lang/pack"})
 	r.Rule("C03.order", "record containers carry the inner packs in the order given: no function taking or returning a list of packs hands it to a sorting, shuffling or reversing routine", 1)
 	keepOrderRule(p, r, "C03.order", []string{"lang/pack"}, "Pack")
 	checkRegistry(p, r, "C03.registry", "lang/pack", "CreatePack", "Pack", "GetPackType")
@@ -737,4 +739,100 @@ func c03EmptyBlob(p *core.Program, r *core.Report, rule, relPkg string) {
 				"a count is read from a stream over "+s.field+" without `len("+s.field+") == 0` having been ruled out: a pack that never had records (or was decoded from one) makes the read fail instead of yielding no records")
 		}
 	}
+}
+
+// c03VerbatimInput: a decoder entry point decodes the bytes it was handed. Where a function of the
+// package builds its input stream from a []byte parameter, the stream is made over that parameter
+// itself (or an explicit re-slice of it, which is framing) — never over what some function made of it
+// (trimmed, unpadded, copied with changes): an encoding may legitimately end in the bytes such a
+// function removes, and then a pack that was written does not read back.
+func c03VerbatimInput(p *core.Program, r *core.Report, rule string, relPkgs []string) {
+	in := map[string]bool{}
+	for _, k := range relPkgs {
+		in[k] = true
+	}
+	for _, fi := range p.Funcs {
+		if fi.Decl.Body == nil || !in[core.RelPkg(fi.Pkg.PkgPath)] {
+			continue
+		}
+		info := fi.Pkg.TypesInfo
+		bparams := map[types.Object]bool{}
+		for _, f := range fi.Decl.Type.Params.List {
+			for _, nm := range f.Names {
+				if o := info.Defs[nm]; o != nil && isByteSlice(o.Type()) {
+					bparams[o] = true
+				}
+			}
+		}
+		if len(bparams) == 0 {
+			continue
+		}
+		mentions := func(e ast.Expr) bool {
+			found := false
+			ast.Inspect(e, func(n ast.Node) bool {
+				if id, ok := n.(*ast.Ident); ok && bparams[info.ObjectOf(id)] {
+					found = true
+				}
+				return !found
+			})
+			return found
+		}
+		ast.Inspect(fi.Decl.Body, func(n ast.Node) bool {
+			call, ok := n.(*ast.CallExpr)
+			if !ok || len(call.Args) != 1 || !isCallTo(info, call, core.ModPath+"/io", "NewDataInputX") {
+				return true
+			}
+			arg := call.Args[0]
+			// follow one local: x := f(b); NewDataInputX(x)
+			if id, ok := ast.Unparen(arg).(*ast.Ident); ok && !bparams[info.ObjectOf(id)] {
+				if d := singleDefIn(info, fi.Decl.Body, info.ObjectOf(id)); d != nil {
+					arg = d
+				}
+			}
+			if !mentions(arg) {
+				return true
+			}
+			bad := ""
+			ast.Inspect(arg, func(m ast.Node) bool {
+				c, ok := m.(*ast.CallExpr)
+				if !ok {
+					return true
+				}
+				if tv, has := info.Types[c.Fun]; has && tv.IsType() {
+					return true
+				}
+				for _, a := range c.Args {
+					if mentions(a) {
+						bad = types.ExprString(c)
+					}
+				}
+				return true
+			})
+			c := core.FuncName(fi.Obj) + " decodes what it was handed"
+			r.Check(bad == "", rule, c, p.Pos(call.Pos()), "the input stream is made over the parameter itself",
+				"the input stream is made over "+bad+", not over the bytes handed in: whatever that function removes or rewrites is missing from the decoding (an encoding may end in exactly those bytes)")
+			return true
+		})
+	}
+}
+
+// singleDefIn: the one expression a local is assigned in body (nil if none or several).
+func singleDefIn(info *types.Info, body *ast.BlockStmt, obj types.Object) ast.Expr {
+	var def ast.Expr
+	n := 0
+	ast.Inspect(body, func(m ast.Node) bool {
+		if as, ok := m.(*ast.AssignStmt); ok && len(as.Lhs) == len(as.Rhs) {
+			for i, l := range as.Lhs {
+				if id, ok := l.(*ast.Ident); ok && info.ObjectOf(id) == obj {
+					def = as.Rhs[i]
+					n++
+				}
+			}
+		}
+		return true
+	})
+	if n == 1 {
+		return def
+	}
+	return nil
 }
